@@ -71,7 +71,8 @@ def render_hb(case, rng, rb=False):
     if rb:
         lines.append("%14d%14d%14d%14d" % (tot, len(pl), len(il), len(vl)))
     else:
-        lines.append("%14d%14d%14d%14d%14d" % (tot, len(pl), len(il), len(vl), 1 if rhs else 0))
+        # RHSCRD: a blank field is legal (Fortran reads a blank I14 as 0)
+        lines.append(("%14d%14d%14d%14d" % (tot, len(pl), len(il), len(vl))) + ("%14d" % (1 if rhs else 0) if (rhs or rng.random() < 0.6) else " " * 14))
     lines.append(typ + " " * 11 + "%14d%14d%14d%14d" % (m, n, len(rowind), 0))
     f1, f2, f3 = "(%dI%d)" % (pp, pw), "(%dI%d)" % (ip, iw), "(%d%s%d.%d)" % (vp, kind, vw, vd)
     if rb:
